@@ -240,6 +240,12 @@ def run_gather(acc, c, only_prefix=None):
         acc.add_hits(res.hook_hits)
         sc.add(res)
         pfx = tuple(x for _, _, x in res.choices)
+        if res.forced or res.outcome == "hang":
+            # a stall is only believed when the same schedule stalls again (the first one may be the machine's doing)
+            res_c = run_one(pfx)
+            if not (res_c.forced or res_c.outcome == "hang"):
+                acc.extra["stalls_not_confirmed"] = acc.extra.get("stalls_not_confirmed", 0) + 1
+                res = res_c
         if res.outcome != "return":
             acc.violation(V("gather_failed", f"gathering {k} awaits: {res.outcome} {res.exc!r}"), c, pfx, res.trace, src)
             continue
